@@ -333,3 +333,71 @@ Example range_close_releases :
   let s := scenario N (range_init 1 [1; 2; 3; 4]%Z) 500 0 true (Some 2) [LCancel 1] in
   quiescentb N s = true /\ stuck_users N s = 0 /\ closedb s 0 = true.
 Proof. vm_compute. repeat split; auto. Qed.
+
+(* ================================================================ a downstream stage fails: EOF without Close
+   A lazy stage downstream of a goroutine-backed one fails with an ordinary error. ReadOne records the error,
+   reports io.EOF - and closes the iterator (doClose on ANY error), which cancels the iterator's context
+   exactly as Close does: in the model that is the label LClose 1, and C04_quiescent_all_done applies.
+   Without that cancellation the consumer has simply walked away (LAbandon) and the pump stays parked: *)
+Example eof_without_close_leaks :
+  let N := pump_net in
+  let s := scenario N (pump_init [1; 2; 3; 4; 5]%Z) 500 0 true (Some 2) [LAbandon 0] in
+  quiescentb N s = true /\ leaks N s = 1 /\ s_canc s = [].
+Proof. vm_compute. repeat split; reflexivity. Qed.
+
+Example eof_with_doclose_releases :
+  let N := pump_net in
+  let s := scenario N (pump_init [1; 2; 3; 4; 5]%Z) 500 0 true (Some 2) [LClose 1; LAbandon 0] in
+  quiescentb N s = true /\ leaks N s = 0.
+Proof. vm_compute. repeat split; reflexivity. Qed.
+
+(* ================================================================ ChanSend.Consume over a goroutine-backed input
+   The pump of MergeIterators / Buffer (goroutine 2: read the input, send, and on EVERY exit close the input
+   iterator) over an input that is itself goroutine-backed (goroutine 1: the input's own pump, channel 0) and
+   was already running - advanced once - under the application's context 5, which nobody cancels; closing the
+   input iterator cancels its context 6 (a child of 5). The consumer (goroutine 0, iterator context 1) takes
+   k items from the pipe (channel 1) and Closes.
+   The input keeps the context of its FIRST advance (Producer.WithCancel): the read of the input by
+   goroutine 2 is guarded by context 6, not by goroutine 2's own context. *)
+Definition nested_desc (a c : cid) : bool := (a =? c) || ((a =? 5) && (c =? 6)) || ((a =? 0) && (c =? 1)).
+Definition consume_prog (close_on_error : bool) : list instr :=
+  [IRecv 0 (GId 6) 1 2 (if close_on_error then 2 else 3);
+   ISend 1 GOwn 0 (if close_on_error then 2 else 3) (if close_on_error then 2 else 3);
+   ICancel 6 3;                        (* iter.Close() *)
+   IExit].
+Definition nested_net (close_on_error : bool) : net :=
+  mkNet [usr [ICheck GOwn 1 5; ISpawn 2 GOwn 2; IRecv 1 GOwn 3 4 4; IDeliver 0; ICancel 1 5; IExit];
+         bg (pump_prog 0 0);
+         bg (consume_prog close_on_error)] nested_desc 1.
+Definition nested_init (input : list Z) : state := mk_init [running 1; running 6; idle] [1; 0] [input].
+
+(* the deferred close runs on every exit: the consumer Closes after one item, the pump of the merged / buffered
+   stage gives up its send, closes its input, and the input's own pump goes away although context 5 is live *)
+Example consume_closes_input_on_every_exit :
+  let N := nested_net true in
+  let s := scenario N (nested_init [1; 2; 3; 4; 5; 6]%Z) 500 0 true (Some 1) [LClose 1] in
+  quiescentb N s = true /\ leaks N s = 0 /\ stuck_users N s = 0 /\ ~ In 5 (s_canc s).
+Proof. vm_compute. repeat split; try reflexivity. intuition discriminate. Qed.
+
+(* closing the input only after a clean run: the same scenario leaves the input's pump parked for ever *)
+Example consume_close_only_on_success_leaks :
+  let N := nested_net false in
+  let s := scenario N (nested_init [1; 2; 3; 4; 5; 6]%Z) 500 0 true (Some 1) [LClose 1] in
+  quiescentb N s = true /\ leaks N s = 1.
+Proof. vm_compute. repeat split; reflexivity. Qed.
+
+(* and the limit of the library as it is (same root cause as the Split starter finding): when the input has
+   nothing to hand over for the moment (its pump, goroutine 1, waits - context guarded - for its source),
+   goroutine 2 is parked INSIDE the input's read, which listens to context 6 only: Close and cancellation on
+   the consumer's side release the consumer and nobody else *)
+Definition nested_blocked_net : net :=
+  mkNet [usr [ICheck GOwn 1 5; ISpawn 2 GOwn 2; IRecv 1 GOwn 3 4 4; IDeliver 0; ICancel 1 5; IExit];
+         bg [IRecv 2 GOwn 1 1 1; IExit];
+         bg (consume_prog true)] nested_desc 1.
+Definition nested_blocked_init : state := mk_init [running 1; running 6; idle] [1; 0; 0] [[]].
+
+Example reader_parked_in_first_advance_context_not_released :
+  let N := nested_blocked_net in
+  let s := scenario N nested_blocked_init 500 0 true (Some 1) [LClose 1; LCancel 0] in
+  quiescentb N s = true /\ stuck_users N s = 0 /\ leaks N s = 2 /\ In 1 (s_canc s) /\ In 0 (s_canc s) /\ ~ In 6 (s_canc s).
+Proof. vm_compute. repeat split; auto. intuition discriminate. Qed.
